@@ -402,6 +402,7 @@ class K:
 
 
 FELL_OFF = "FELL_OFF_THE_END"
+UNROLL_MAX = 3          # constant-trip loops of up to 3 iterations are unrolled, longer ones become fuel loops
 JOIN_THRESHOLD = 160
 
 
@@ -1308,7 +1309,7 @@ class Fn:
         else:
             init, cond, step, body = None, s[1], None, s[2]
         n = self.const_trip(init, cond, step, body)
-        if n is not None:
+        if n is not None and n <= UNROLL_MAX:
             return self.unroll(init, step, body, n, k, s)
         return self.fuel_loop(init, cond, step, body, k, s)
 
